@@ -50,4 +50,7 @@ RULES = [
      fitclauses.clause_minimize_inputs),
     ("C04-R5", "changed bounds/expressions of the initial parameters "
      "invalidate the results", r5_bounds_trigger_refit),
+    ("C04-R6", "the reported contact point is the fitted one converted "
+     "back once, value only (bounds and other attributes untouched)",
+     fitclauses.clause_gcf_pairing),
 ]
